@@ -60,9 +60,20 @@ def proppatch(sets=(), removes=()):
     return f'<?xml version="1.0" encoding="utf-8"?><D:propertyupdate {NS}>{"".join(parts)}</D:propertyupdate>'.encode()
 
 
-def mkcol_ext(kind, sets=()):
-    rt = {"calendar": "<D:collection/><C:calendar/>", "addressbook": "<D:collection/><A:addressbook/>", "plain": "<D:collection/>"}[kind]
-    props = f"<D:resourcetype>{rt}</D:resourcetype>" + "".join(f"<{q(n)}>{xesc(v)}</{q(n)}>" for n, v in sets)
+RT_XML = {"calendar": "<D:collection/><C:calendar/>", "addressbook": "<D:collection/><A:addressbook/>", "plain": "<D:collection/>"}
+
+
+def proppatch_resourcetype(kind, sets=()):
+    """PROPPATCH that sets DAV:resourcetype (after the other properties in `sets`)"""
+    parts = [f"<D:set><D:prop><{q(name)}>{xesc(val)}</{q(name)}></D:prop></D:set>" for name, val in sets]
+    parts.append(f"<D:set><D:prop><D:resourcetype>{RT_XML[kind]}</D:resourcetype></D:prop></D:set>")
+    return f'<?xml version="1.0" encoding="utf-8"?><D:propertyupdate {NS}>{"".join(parts)}</D:propertyupdate>'.encode()
+
+
+def mkcol_ext(kind, sets=(), rt_last=False):
+    rt = RT_XML[kind]
+    others = "".join(f"<{q(n)}>{xesc(v)}</{q(n)}>" for n, v in sets)
+    props = (others + f"<D:resourcetype>{rt}</D:resourcetype>") if rt_last else (f"<D:resourcetype>{rt}</D:resourcetype>" + others)
     return f'<?xml version="1.0" encoding="utf-8"?><D:mkcol {NS}><D:set><D:prop>{props}</D:prop></D:set></D:mkcol>'.encode()
 
 
